@@ -39,11 +39,13 @@ fn parse_file(file: &mut SliceFile, ast: &mut Ast, diagnostics: &mut Diagnostics
     let Ok((attributes, module, definitions)) = parser.parse_slice_file(preprocessed_text) else { return };
 
     // Issue a syntax error if the user had definitions but forgot to declare a module.
-    if !definitions.is_empty() && module.is_none() {
+    // The error points at the first of those definitions, so that the user can tell which file it's about.
+    if let (Some(first_definition), None) = (definitions.first(), &module) {
         Diagnostic::new(Error::Syntax {
             // TODO improve this message, see: #348
             message: "module declaration is required".to_owned(),
         })
+        .set_span(first_definition.borrow().span())
         .push_into(diagnostics);
     }
 
